@@ -14,7 +14,8 @@
 From Coq Require Import List NArith Bool Arith.
 From Coq.Strings Require Import Byte.
 Import ListNotations.
-From OV Require Import Base.Bytes Base.Utf8 Base.Cases Base.Tree.
+From Coq Require Import ZArith.
+From OV Require Import Base.Bytes Base.Utf8 Base.Cases Base.Tree Gen.CsvCfg.
 
 Definition QUOTE : byte := x22.
 Definition APOS : byte := x27.
@@ -170,8 +171,8 @@ Inductive cres := CRec (fields : list bytes) | CParseErr | CEOF | CBadDelim | CF
 
 Definition csv_fuel (st : cst) : nat := 2 * length (c_in st) + 8.
 
-(* Reader.Read *)
-Definition csv_next (comma : rune) (st : cst) : cres * cst :=
+(* Reader.Read, for the one configuration transcribed above *)
+Definition csv_next_strict (comma : rune) (st : cst) : cres * cst :=
   if negb (valid_delim comma) then (CBadDelim, st)
   else
     match next_line (csv_fuel st) st with
@@ -184,6 +185,21 @@ Definition csv_next (comma : rune) (st : cst) : cres * cst :=
         | PFuel => (CFuel, st1)
         end
     end.
+
+(* The configuration the transcription is for: Comma = first rune of the declared delimiter,
+   FieldsPerRecord < 0, no LazyQuotes, no TrimLeadingSpace, no Comment; replace_double_quotes turns
+   the byte 0x22 into 0x27.  Gen/CsvCfg.v is regenerated from the two NewReader functions on every
+   run: if either reader is configured differently the model refuses to run (CFuel) and every
+   theorem about csv_next stops checking. *)
+Definition cfg_supported (c : csv_cfg) : bool :=
+  cfg_comma_first_rune c && (cfg_fields_per_record c <? 0)%Z && negb (cfg_lazy_quotes c)
+  && negb (cfg_trim_leading_space c) && N.eqb (cfg_comment c) 0
+  && list_eqb N.eqb (cfg_replace_search c) [34%N] && list_eqb N.eqb (cfg_replace_with c) [39%N].
+
+(* Reader.Read as both csv readers configure it *)
+Definition csv_next (comma : rune) (st : cst) : cres * cst :=
+  if cfg_supported old_csv_cfg && cfg_supported csv2_cfg then csv_next_strict comma st
+  else (CFuel, st).
 
 Fixpoint csv_read_all (fuel : nat) (comma : rune) (st : cst) : list cres :=
   match fuel with
@@ -258,19 +274,23 @@ Record csvdecl := mkCsvDecl {
 
 Record ost := mkO { o_c : cst; o_checked : bool; o_latched : bool }.
 
-(* jumpTo: Read until LineNum() >= rowIndex; only io.EOF stops it early.  Some (true, _) = EOF *)
-Fixpoint jump_to (fuel : nat) (comma : rune) (row : nat) (st : cst) : option (bool * cst) :=
+(* jumpTo: Read until LineNum() >= rowIndex.  io.EOF stops it; so does an error that is not a
+   *csv.ParseError (a failure of the input, latched as readErr - repair N10); a parse error of a
+   line to skip is ignored. *)
+Inductive jres := JOk | JEof | JErr.
+Fixpoint jump_to (fuel : nat) (comma : rune) (row : nat) (st : cst) : option (jres * cst) :=
   match fuel with
   | O => None
   | S k =>
       if c_line st <? row then
         let '(r, st') := csv_next comma st in
         match r with
-        | CEOF => Some (true, st')
+        | CEOF => Some (JEof, st')
         | CFuel => None
+        | CBadDelim => Some (JErr, st')
         | _ => jump_to k comma row st'
         end
-      else Some (false, st)
+      else Some (JOk, st)
   end.
 
 Section OldCsv.
@@ -286,8 +306,9 @@ Section OldCsv.
   Definition skip_to_data (st : cst) : option outcome * cst :=
     match jump_to (S (d_data d)) (d_delim d) (d_data d - 1) st with
     | None => (Some OFuel, st)
-    | Some (true, st1) => (Some OEOF, st1)
-    | Some (false, st1) => (None, st1)
+    | Some (JEof, st1) => (Some OEOF, st1)
+    | Some (JErr, st1) => (Some OFatal, st1)     (* r.readErr *)
+    | Some (JOk, st1) => (None, st1)
     end.
 
   Definition check_header (st : cst) : option outcome * cst :=
@@ -296,8 +317,8 @@ Section OldCsv.
     | Some h =>
         match jump_to (S h) (d_delim d) (h - 1) st with
         | None => (Some OFuel, st)
-        | Some (true, st1) => (Some OFatal, st1)
-        | Some (false, st1) =>
+        | Some (JEof, st1) | Some (JErr, st1) => (Some OFatal, st1)   (* ErrInvalidHeader *)
+        | Some (JOk, st1) =>
             let '(r, st2) := csv_next (d_delim d) st1 in
             match r with
             | CRec header => if header_matches header then skip_to_data st2 else (Some OFatal, st2)
